@@ -212,6 +212,8 @@ def cases(ctx):
         if chain == 'webvtt' and rng.random() < 0.35:
             # some spans reference a style class of the set instead of carrying the flags themselves
             styles = {k: dict(v) for k, v in CLASS_STYLES.items()}
+            if rng.random() < 0.5:
+                styles['Blank'] = {}      # a style without rules, in front of the others
             for c in caps:
                 opened = []
                 for nd in c['nodes']:
@@ -228,6 +230,8 @@ def cases(ctx):
             # one comes out depends on the order the styles are written in, and is not judged); the set also has
             # styles that refer to others
             styles = {k: dict(v) for k, v in CLASS_STYLES.items()}
+            if rng.random() < 0.5:
+                styles['Blank'] = {}      # a style without rules, in front of the others
             for c in caps:
                 opened = []
                 for nd in c['nodes']:
